@@ -61,6 +61,8 @@ def check_factory(p):
             true(devs, f"holder.{acc}.type", type(z) is cls, f"got {type(z).__name__}")
         else:
             expect_raise(devs, f"holder.wrong_kind.{kind}->{acc}", fn, accept=(TypeError,))
+    # histories through the factory: decoded PDUs stay what they are while further PDUs are decoded and buffers are reused
+    devs.extend(M.pdu_histories(p, raw, wo, PduFactory.from_raw, tag="hist.factory", decode_other=PduFactory.from_raw))
     # a holder built directly around the original object behaves the same
     h2 = PduHolder(original)
     for k2, acc in ACCESSOR.items():
